@@ -23,7 +23,7 @@ SPEC = {
              "opcode or label spelling); distinct = distinct (recipe, annotation) hashes."),
     "assumptions": ["vlib/tealgrammar.py tokenizer drops exactly what the assembler treats as comments", "label alpha-renaming in order of definition"],
     "min_evaluations": {"quick": 4000, "thorough": 50000},
-    "must_reach": ["streams_equal", "kind_comment_wrap", "kind_comment_alone", "kind_assert_comment", "kind_pragma", "kind_nonce", "kind_subname", "exec_equal"],
+    "must_reach": ["streams_equal", "kind_comment_after_exit", "universal_newline_model_compared", "kind_comment_wrap", "kind_comment_alone", "kind_assert_comment", "kind_pragma", "kind_nonce", "kind_subname", "exec_equal"],
     "shard_timeout": {"quick": 600, "thorough": 7200},
 }
 
@@ -103,7 +103,7 @@ def annotate(rng, recipe, bulk):
     nonce = None
     while budget > 0 and tries < 60:
         tries += 1
-        kind = rng.choice(["comment_wrap", "comment_wrap", "comment_alone", "assert_comment", "pragma", "nonce", "subname"])
+        kind = rng.choice(["comment_wrap", "comment_wrap", "comment_alone", "assert_comment", "pragma", "nonce", "subname", "comment_after_exit"])
         t = rtext(rng)
         if kind == "comment_wrap":
             L = rng.choice(lists)
@@ -120,6 +120,26 @@ def annotate(rng, recipe, bulk):
                 continue
             i = rng.choice(cands)
             L.insert(i, ["comment", t, None])
+        elif kind == "comment_after_exit":
+            # a comment standing directly behind Return/Approve/Reject/Err in the same Seq (an arm of a conditional or a loop body)
+            found = []
+
+            def look(n):
+                if n[0] == "if":
+                    for pos in (2, 3):
+                        if n[pos] is not None and n[pos][0] in ("return", "approve", "reject", "err"):
+                            found.append((n, pos))
+                if n[0] in ("cond", "ifchain"):
+                    for arm in n[1]:
+                        if arm[1][0] in ("return", "approve", "reject", "err"):
+                            found.append((arm, 1))
+            recipes.walk(r["main"], look)
+            for sub in r["subs"]:
+                recipes.walk(sub["body"], look)
+            if not found:
+                continue
+            node, pos = rng.choice(found)
+            node[pos] = ["seq", [node[pos], ["comment", t, None]]]
         elif kind == "assert_comment":
             found = []
             recipes.walk(r["main"], lambda n: found.append(n) if n[0] == "assert" else None)
@@ -243,6 +263,18 @@ def check_pair(acc, pt, recipe, variant, notes, nonce, version, mode, fp, ctx, o
         acc.nontrivial.add(h([recipe, notes, nonce]))
     nb = nonce_value(nonce) if nonce is not None else None
     a, b = normalise(base_teal), normalise(var_teal, nb)
+    if a == b:
+        # second line model: tools that split TEAL text on every Unicode line boundary (as PyTeal's own Comment/annotation code
+        # does with str.splitlines) must see the same stream too
+        try:
+            a2, b2 = normalise("\n".join(base_teal.splitlines())), normalise("\n".join(var_teal.splitlines()), nb)
+            acc.counters["universal_newline_model_compared"] += 1
+            if a2 != b2 or a2 != a:
+                a, b = a2, b2
+                if a2 == b2:
+                    b = b + [["<differs from the \\n-only line model>"]]
+        except Exception as e:
+            a, b = a, b + [["<unparseable under the universal-newline line model: %s>" % str(e)[:80]]]
     if a != b:
         i = 0
         while i < min(len(a), len(b)) and a[i] == b[i]:
